@@ -32,12 +32,14 @@ vars == <<l, owned, inpool, caller, bad>>
 
 Init == l = 1 /\ owned = {} /\ inpool = <<>> /\ caller = {} /\ bad = {}
 E == Trace[l]
-Flag(cond, why) == IF cond THEN {<<l, why>>} ELSE {}
+\* (the first 20 are enough for a verdict; a state that carries thousands of them makes the replay quadratic)
+Flag(cond, why) == IF cond /\ Cardinality(bad) < 20 THEN {<<l, why>>} ELSE {}
 
 Start == /\ E.ev = "start"
          /\ owned' = {} /\ inpool' = <<>> /\ caller' = {} /\ UNCHANGED bad
+\* (the recorder numbers the objects anew after a collection: nothing that is known refers to anything that follows)
 GC == /\ E.ev = "gc"
-      /\ inpool' = <<>> /\ caller' = {} /\ UNCHANGED <<owned, bad>>
+      /\ inpool' = <<>> /\ caller' = {} /\ owned' = {} /\ UNCHANGED bad
 CaseMark == E.ev = "case" /\ UNCHANGED <<owned, inpool, caller, bad>>
 Caller == /\ E.ev = "caller"
           /\ caller' = caller \cup {E.id}
